@@ -457,6 +457,123 @@ fn main() {
                 out.flush().unwrap();
             }
         }
+        "pairs" => {
+            // C05: every ordered pair (type saved, type loaded) of the gate catalogue, class from GateMC.tla
+            let text = std::fs::read_to_string(&args[2]).expect("records file");
+            let mut recs: Vec<Value> = text.lines().filter(|l| !l.trim().is_empty()).map(|l| serde_json::from_str(l).unwrap()).collect();
+            recs.sort_by_key(|r| r["ia"].as_u64().unwrap());
+            let mut out = open_out(&args[3]);
+            for ra in recs.iter() {
+                let ia = ra["ia"].as_u64().unwrap() as usize;
+                let ka = canon(&ra["t"]);
+                let mv: MV = serde_json::from_value(ra["v"].clone()).expect("model value");
+                let mut fails = vec![];
+                let Some(ea) = reg.get(&ka) else {
+                    writeln!(out, "{}", json!({"i": ia, "fails": [{"check": "tool.missing_type", "detail": ka}]})).unwrap();
+                    continue;
+                };
+                for mode in [Mode::Plain, Mode::Bz] {
+                    let tag = format!("{:?}", mode).to_lowercase();
+                    let mut sink = Tap::new();
+                    sink.keep_log = false;
+                    if !ea.ops.save(&mv, 0, mode, &mut sink).is_ok() {
+                        fails.push(json!({"check": "c05.save", "detail": "save failed"}));
+                        continue;
+                    }
+                    for rb in recs.iter() {
+                        let ib = rb["ia"].as_u64().unwrap() as usize;
+                        let class = ra["classes"][ib - 1].as_str().unwrap();
+                        let kb = canon(&rb["t"]);
+                        let Some(eb) = reg.get(&kb) else { continue };
+                        let mut src = TapR::new(&sink.data);
+                        src.keep_log = false;
+                        let r = eb.ops.load(&mut src, 0, mode);
+                        let what = |r: &Outcome<MV>| match r {
+                            Outcome::Ok(_) => "Ok".to_string(),
+                            Outcome::Err(c, _) => format!("Err({})", c),
+                            Outcome::Panic(m) => format!("Panic({})", m),
+                        };
+                        match (class, &r) {
+                            (_, Outcome::Panic(_)) => fails.push(json!({"check": format!("c05.pair.{}.panic", tag), "ib": ib, "detail": what(&r)})),
+                            ("accept", Outcome::Ok(back)) => {
+                                if ka == kb && *back != mv {
+                                    fails.push(json!({"check": format!("c05.pair.{}.value", tag), "ib": ib, "detail": format!("{:?}", back)}));
+                                }
+                            }
+                            ("accept", _) => fails.push(json!({"check": format!("c05.pair.{}.rejected_same_layout", tag), "ib": ib, "detail": what(&r)})),
+                            ("reject", Outcome::Err(c, _)) if c == "IncompatibleSchema" => {}
+                            ("reject", _) => fails.push(json!({"check": format!("c05.pair.{}.accepted_different_layout", tag), "ib": ib, "detail": what(&r)})),
+                            _ => {}
+                        }
+                    }
+                }
+                writeln!(out, "{}", json!({"i": ia, "fails": fails})).unwrap();
+                out.flush().unwrap();
+            }
+        }
+        "headers" => {
+            // C05 header clause: Container.tla behaviours on real files
+            let input = std::fs::File::open(&args[2]).expect("records file");
+            let mut out = open_out(&args[3]);
+            let key_of = |name: &str| canon(&json!({"k": "p", "s": name, "n": 0, "ts": [], "fa": []}));
+            let (e32, e16) = (reg.get(&key_of("u32")).expect("u32 registered"), reg.get(&key_of("u16")).expect("u16 registered"));
+            let v32: MV = MV::b(vec![1, 2, 3, 4]);
+            let v16: MV = MV::b(vec![1, 2]);
+            for (i, line) in std::io::BufReader::new(input).lines().enumerate() {
+                let line = line.unwrap();
+                if line.trim().is_empty() {
+                    continue;
+                }
+                let rec: Value = serde_json::from_str(&line).expect("record json");
+                let f = &rec["file"];
+                let with_schema = rec["withSchema"].as_bool().unwrap();
+                let compressed = f["flag"].as_u64().unwrap() == 1;
+                let dataver = f["dataver"].as_u64().unwrap() as u32;
+                let mem = rec["mem"].as_u64().unwrap() as u32;
+                let mut fails = vec![];
+                // the writer: u32 (same schema) or u16 (different schema)
+                let (ew, vw) = if f["schema"] == "different" { (e16, &v16) } else { (e32, &v32) };
+                let mode_w = if compressed { Mode::Bz } else if with_schema { Mode::Plain } else { Mode::NoSchema };
+                let mut sink = Tap::new();
+                sink.keep_log = false;
+                if compressed && !with_schema {
+                    // there is no public schema-less compressed writer: skip (the model covers it)
+                    writeln!(out, "{}", json!({"i": i, "fails": [], "skipped": true})).unwrap();
+                    continue;
+                }
+                if !ew.ops.save(vw, dataver, mode_w, &mut sink).is_ok() {
+                    fails.push(json!({"check": "c05.header.save", "detail": "save failed"}));
+                }
+                let mut file = sink.data;
+                if !f["magic"].as_bool().unwrap() {
+                    file[3] ^= 0x20;
+                }
+                let lib = f["lib"].as_u64().unwrap() as u16;
+                if lib == 3 {
+                    file[9..11].copy_from_slice(&lib.to_le_bytes());
+                }
+                let gate_len = if compressed { file.len() } else { file.len() - vw.bs.len() };
+                let mode_r = if with_schema { if compressed { Mode::Bz } else { Mode::Plain } } else { Mode::NoSchema };
+                let mut src = TapR::new(&file);
+                src.keep_log = false;
+                let r = e32.ops.load(&mut src, mem, mode_r);
+                let want = rec["result"].as_str().unwrap();
+                let got = match &r {
+                    Outcome::Ok(_) => "value".to_string(),
+                    Outcome::Err(c, _) => c.clone(),
+                    Outcome::Panic(m) => format!("panic {}", m),
+                };
+                if lib <= 2 && lib != 2 {
+                    // files of library format 0/1 are not produced here (C13 covers the old schema formats)
+                } else if !(got == want || (want.starts_with("GeneralError") && got == "GeneralError")) {
+                    fails.push(json!({"check": "c05.header.outcome", "detail": format!("real {} spec {}", got, want)}));
+                }
+                if want != "value" && !compressed && src.pos > gate_len {
+                    fails.push(json!({"check": "c05.header.payload_read_before_gate", "detail": format!("reader consumed {} bytes, header+schema is {}", src.pos, gate_len)}));
+                }
+                writeln!(out, "{}", json!({"i": i, "fails": fails})).unwrap();
+            }
+        }
         "introlen" => {
             // C17, first clause: introspect_len() == number of children fetchable by consecutive indices from 0
             let input = std::fs::File::open(&args[2]).expect("records file");
